@@ -17,6 +17,9 @@ func init() {
 			c.floor("FILL", 3)
 			c.runSelfKey("SELFKEY", c.libPkgs()[:3], nil)
 			c.floor("SELFKEY", 3)
+			// ARAP assembles its sparse system row by row
+			c.runRowIdx("ROWIDX", c.libPkgs()[:1], baseIn("deformation.go"))
+			c.floor("ROWIDX", 1)
 		},
 		SelfTest: []Mutation{
 			{Name: "normal criterion ignores the keep-filter", File: "model3d/decimate.go",
